@@ -102,6 +102,8 @@ class Module:
             self.tree = ast.parse(self.source, filename=str(path))
         except SyntaxError as exc:  # pragma: no cover
             raise AnalysisError(f"cannot parse {path}: {exc}") from exc
+        from . import canon
+        self.renamed_functions = canon.canonicalise(self.name, self.tree)
         self.imports: Dict[str, Tuple[str, Optional[str]]] = {}
         self.functions: Dict[str, FuncInfo] = {}
         self.all_functions: List[FuncInfo] = []  # incl. duplicates named `_` (singledispatch)
